@@ -468,7 +468,7 @@ impl<'a> CompilerState<'a> {
                     }
                     Rule::quoted_string => {
                         // Create a temp variable pointing to this quoted_string
-                        let v = self.compile_quoted_string(primary);
+                        let v = self.compile_quoted_string(primary)?;
                         let mut l = literal_counter.lock().unwrap();
                         let name = format!("cctmp{}", l);
                         *l += 1;
@@ -633,7 +633,7 @@ impl<'a> CompilerState<'a> {
                     }
                     Rule::quoted_string => {
                         // Create a temp variable pointing to this quoted_string
-                        let v = self.compile_quoted_string(primary);
+                        let v = self.compile_quoted_string(primary)?;
                         let mut l = literal_counter.lock().unwrap();
                         let name = format!("cctmp{}", l);
                         *l += 1;
@@ -905,7 +905,7 @@ impl<'a> CompilerState<'a> {
             }
             Rule::asm_statement => {
                 let mut px = pair.into_inner();
-                let mut s = self.compile_quoted_string(px.next().unwrap());
+                let mut s = self.compile_quoted_string(px.next().unwrap())?;
                 let size = if let Some(x) = px.next() {
                     Some(self.parse_calc(x.into_inner())? as u32)
                 } else {
@@ -1586,7 +1586,7 @@ impl<'a> CompilerState<'a> {
                                                         v.push((s, offset));
                                                     }
                                                     Rule::quoted_string => {
-                                                        let k = self.compile_quoted_string(pxx);
+                                                        let k = self.compile_quoted_string(pxx)?;
                                                         let name = format!(
                                                             "cctmp{}",
                                                             self.literal_counter
@@ -1652,7 +1652,7 @@ impl<'a> CompilerState<'a> {
                                                 start,
                                             ));
                                         }
-                                        let string = self.compile_quoted_string(px);
+                                        let string = self.compile_quoted_string(px)?;
                                         let vb = string.as_bytes();
                                         let mut v = Vec::<VariableValue>::new();
                                         for c in vb.iter() {
@@ -2272,15 +2272,22 @@ impl<'a> CompilerState<'a> {
         Ok(())
     }
 
-    fn compile_quoted_string(&self, p: Pair<Rule>) -> String {
+    fn compile_quoted_string(&self, p: Pair<Rule>) -> Result<String, Error> {
         let mut v = String::new();
+        let start = p.as_span().start();
         let it = p.into_inner();
         for i in it {
-            let j = i.as_str().parse::<usize>().unwrap();
-            v.push_str(&compile_quoted_string_ex(&self.context.literal_strings[j]));
+            // The number of a literal the preprocessor has put aside; anything else was written as is in the source
+            let literal = i
+                .as_str()
+                .parse::<usize>()
+                .ok()
+                .and_then(|j| self.context.literal_strings.get(j))
+                .ok_or_else(|| self.syntax_error("Unexpected '@'", start))?;
+            v.push_str(&compile_quoted_string_ex(literal));
         }
         v.push(char::from_u32(0).unwrap());
-        v
+        Ok(v)
     }
 }
 
